@@ -292,6 +292,13 @@ static int32 pkcs12pbe(psPool_t *pool, unsigned char *password, uint32 passLen,
     int32 i, j, copy, count, cpyLen, binsize, plen;
 
     *out = NULL;
+    if (saltLen < 1 || passLen < 1)
+    {
+        /* The loop below repeats the salt until 64 bytes are filled (it
+           would never end with an empty salt); the password is indexed
+           modulo its length. */
+        return PS_UNSUPPORTED_FAIL;
+    }
     Memset(diversifier, id, 64);
 
     for (i = 0; i < 64; )
